@@ -22,6 +22,7 @@
 
 #include "vsched/vsched_impl.h"
 
+#include <aws/common/logging.h>
 #include <aws/common/thread.h>
 
 #define NSLOT 320
@@ -150,6 +151,29 @@ static void tail(void) {
     }
 }
 
+/* a logger that takes every line (so that aws_mem_tracer_dump really formats its report) and lets other threads run between
+ * two lines: what the dump reads while it prints must stay valid whatever they do */
+static int dump_lines;
+static int null_log(struct aws_logger *l, enum aws_log_level lv, aws_log_subject_t subj, const char *fmt, ...) {
+    (void)l;
+    (void)lv;
+    (void)subj;
+    (void)fmt;
+    dump_lines++;
+    vs_point();
+    return AWS_OP_SUCCESS;
+}
+static enum aws_log_level null_level(struct aws_logger *l, aws_log_subject_t subj) {
+    (void)l;
+    (void)subj;
+    return AWS_LL_TRACE;
+}
+static void null_cleanup(struct aws_logger *l) {
+    (void)l;
+}
+static struct aws_logger_vtable null_vt = {.log = null_log, .get_log_level = null_level, .clean_up = null_cleanup};
+static struct aws_logger null_logger = {.vtable = &null_vt};
+
 static void do_ops(struct prog *pg);
 /* 300 frames further down: every frame keeps something on the stack and calls on (no tail call) */
 static __attribute__((noinline)) int deep(int d, struct prog *one) {
@@ -198,6 +222,12 @@ static void do_ops(struct prog *pg) {
         }
         if (op[0] == 'D') {
             if (concurrent_phase) {
+                /* a dump while other threads allocate and release: nothing is claimed about the numbers (they are in motion),
+                 * everything about memory safety */
+                aws_mem_tracer_dump(sba);
+                vh_begin("DumpConcurrent");
+                vh_int("thr", pg->k);
+                vh_end();
                 continue;
             }
             aws_mem_tracer_dump(sba);
@@ -372,6 +402,7 @@ static void scenario(char **lines, int nlines) {
     if (flavour == 1 || flavour == 2) {
         traced.mem_calloc = NULL;
     }
+    aws_logger_set(&null_logger);
     sba = aws_mem_tracer_new(&traced, NULL, (enum aws_mem_trace_level)level, (size_t)mt);
     vh_begin("Setup");
     vh_int("flavour", flavour);
